@@ -80,11 +80,14 @@ def r_C12a(root):
                    and isinstance(n.value.left, ast.Constant) and isinstance(n.value.comparators[0], ast.Name) and n.value.comparators[0].id == "flags":
                     derived["self." + n.targets[0].attr] = n.value.left.value
             names, rows = atoms.table(rep.body, feasible=None)
-            for S in ("", "m", "p", "mp"):
+            from sa import pyeval as _pe
+            for S in ("", "m", "p", "mp", "pm", "mm", "pp"):        # every word of the flags token [mp]+ up to length 2, and no flags
                 def val_for(a):
                     if a in derived: return derived[a] in S
                     if a == "self.flags": return bool(S)
-                    raise AnalysisError("unsupported guard atom in RRELExpression.__repr__: " + a)
+                    env = {"self.flags": S}; env.update({k: (v in S) for k, v in derived.items()})
+                    try: return bool(_pe.evaluate(ast.parse(a, mode="eval").body, env))
+                    except _pe.Unsupported: raise AnalysisError("unsupported guard atom in RRELExpression.__repr__: " + a)
                 sel = atoms.select(rows, val_for)
                 if len(sel) != 1: raise AnalysisError("RRELExpression.__repr__: %d paths for flags %r" % (len(sel), S))
                 row = sel[0]
@@ -157,6 +160,32 @@ def r_C27(root):
                 src = ast.unparse(v) if v is not None else None
                 ok = src is not None and (src == "model_params" or src.endswith("._tx_model_params") or src == "ModelParams(kwargs)")
                 if not ok: out.append(Finding("C27", "C27.b", rel, qualname(c), ast.unparse(c), "model parameters not forwarded (model_params=%s)" % src))
+                elif isinstance(v, ast.Name):
+                    # the forwarded name is the caller's parameter itself: no definition other than the parameter reaches the call
+                    f_ = enclosing_func(c)
+                    if f_ is not None:
+                        fi_ = sem.info(f_); n_ = fi_.node_of(c)
+                        # the parameter may belong to an enclosing function (closure): then it must not be re-bound here at all
+                        ds = fi_.rd.defs_of(n_, v.id) if n_ is not None else []
+                        rebound = [fi_.cfg.nodes[d] for d in ds if fi_.cfg.nodes[d].kind != "entry"]
+                        ob("C27", "C27.b", rel, qualname(c), "model_params=%s is the caller's parameter, unchanged" % v.id, not rebound)
+                        if rebound: out.append(Finding("C27", "C27.b", rel, qualname(c), " ".join(ast.unparse(rebound[0].ast).split())[:100], "the parameters forwarded to the imported model are re-built on the way (%s is re-bound before the call): the imported model does not see exactly the parameters of the load" % v.id, witness="two languages registered by file pattern; the importing language declares a parameter the imported one does not"))
+    # ---- C27.c  every loaded model gets the parameters of the load before any user callback sees it
+    for q in ("TextXMetaModel.model_from_str.kwargs_callback", "TextXMetaModel.internal_model_from_file.kwargs_callback"):
+        fn = find(mm, q); fi = sem.info(fn); g = fi.cfg; inst += 1
+        sets = [n for n in g.nodes if n.kind == "stmt" and isinstance(n.ast, ast.Assign) and any(isinstance(tg, ast.Attribute) and tg.attr == "_tx_model_params" for tg in n.ast.targets)]
+        cbs = [n for n in g.nodes if n.ast is not None and n.kind in ("stmt", "return") and any(isinstance(c.func, ast.Name) and "callback" in c.func.id for c in calls(n.ast))]
+        okc = bool(sets)
+        why = "the model parameters are never attached"
+        for st in sets:
+            val = fi.text(st.ast.value, at=st.ast).replace(" ", "")
+            if val not in ("ModelParams(kwargs)", "model_params"): okc = False; why = "the attached parameters are %s, not the parameters of this load" % val
+            gs = [a for a, pol in fi.atoms_at(st.ast)]
+            if any("_tx_metamodel" not in a for a in gs): okc = False; why = "the parameters are attached only under %s" % [a for a in gs if "_tx_metamodel" not in a][0]
+        # order: the first callback call must come after the assignment in program order on the attaching path
+        if sets and cbs and not all(s_.id < c_.id for s_ in sets for c_ in cbs): okc = False; why = "the user callback runs before the parameters are attached"
+        ob("C27", "C27.c", "textx/metamodel.py", q, "_tx_model_params attached (for every textX model) before the user callback", okc)
+        if not okc: out.append(Finding("C27", "C27.c", "textx/metamodel.py", q, "kwargs_callback", why + ": callbacks and scope providers that read model._tx_model_params see nothing or another load's parameters"))
     return inst, out
 def r_C14c(root):
     t = load(root, "textx/model.py"); out = []
